@@ -268,6 +268,17 @@ fn case(m: &mut Mon, r: &mut Rng, _idx: u64) {
                 mforms4!(v, ua, ub, div_rem_euclid);
                 v.push(("div_rem_assign", catch(|| { let mut t = ua.clone(); let rem = t.div_rem_assign(&ub); (t, rem).show() })));
                 agree(&v, "ubig div_rem")?;
+                // mixed UBig / IBig operands: the trait-method form against the operators, in all four ownership forms
+                let mut v: Forms = vec![];
+                mforms4!(v, ia, ub, div_rem);
+                v.push(("ops", catch(|| (&ia / &ub, &ia % &ub).show())));
+                v.push(("ops_val", catch(|| (ia.clone() / ub.clone(), ia.clone() % ub.clone()).show())));
+                agree(&v, "ibig div_rem ubig")?;
+                let mut v: Forms = vec![];
+                mforms4!(v, ua, ib, div_rem);
+                v.push(("ops", catch(|| (&ua / &ib, &ua % &ib).show())));
+                v.push(("ops_val", catch(|| (ua.clone() / ib.clone(), ua.clone() % ib.clone()).show())));
+                agree(&v, "ubig div_rem ibig")?;
                 let mut v: Forms = vec![];
                 mforms4!(v, ia, ib, gcd);
                 v.push(("gcd_ubig", catch(|| (&ua).gcd(&ub).show())));
